@@ -3,6 +3,8 @@ import YaraModel.Lemmas.Cond
 namespace YaraModel.CondCompile
 open YaraModel YaraModel.C YaraModel.Cond YaraModel.CondVm YaraModel.Gen.VmOps
 
+variable {fo : FloatOps}
+
 /-! ### encodings -/
 
 theorem natOfRev_pos (xs : Bytes) : 1 ≤ natOfRev xs := by
@@ -92,7 +94,10 @@ theorem isU_toVm {t : Ty} {v : Val} (h : ValOk t v) : isU (toVm v) = v.isUndef :
     rcases h with rfl | ⟨b, rfl⟩
     · rfl
     · simp [toVm, isU, isUndef_b2i, Val.isUndef]
-  | flt => exact absurd h (by simp [ValOk])
+  | flt =>
+    rcases h with rfl | ⟨w, rfl, hw⟩
+    · rfl
+    · simp [toVm, isU, isUndef_of_ne hw, Val.isUndef]
 
 /-! ### generated opcodes on VM words = specification operators on values -/
 
@@ -100,7 +105,7 @@ theorem neg1 : C.neg 1 = -1 := by decide
 
 theorem vm_arith (prim : String → List Int → Int) (op : ArOp) (va vb : Val)
     (ha : ValOk .int va) (hb : ValOk .int vb) :
-    vmBin prim (arithOp .int op) (toVm va) (toVm vb) = toVm (vArith op va vb) := by
+    vmBin prim (arithOp .int op) (toVm va) (toVm vb) = toVm (vArith fo op va vb) := by
   rcases ha with rfl | ⟨a, rfl, ha⟩ <;> rcases hb with rfl | ⟨b, rfl, hb⟩ <;>
     cases op <;>
     simp [arithOp, vmBin, toVm, vArith, arithInt, isUndef_UNDEF, isUndef_of_ne, *, neg1] <;>
@@ -108,7 +113,7 @@ theorem vm_arith (prim : String → List Int → Int) (op : ArOp) (va vb : Val)
 
 theorem vm_cmp_int (prim : String → List Int → Int) (op : CmpOp) (va vb : Val)
     (ha : ValOk .int va) (hb : ValOk .int vb) :
-    vmBin prim (cmpOp .int op) (toVm va) (toVm vb) = toVm (vCmp op va vb) := by
+    vmBin prim (cmpOp .int op) (toVm va) (toVm vb) = toVm (vCmp fo op va vb) := by
   rcases ha with rfl | ⟨a, rfl, ha⟩ <;> rcases hb with rfl | ⟨b, rfl, hb⟩ <;>
     cases op <;>
     simp [cmpOp, vmBin, toVm, vCmp, cmpInt, isUndef_UNDEF, isUndef_of_ne, *] <;>
@@ -118,7 +123,7 @@ theorem vm_cmp_int (prim : String → List Int → Int) (op : CmpOp) (va vb : Va
        simp [h, h', bne])
 
 theorem vm_neg (prim : String → List Int → Int) (va : Val) (ha : ValOk .int va) :
-    vmUn prim .OP_INT_MINUS (toVm va) = toVm (vNeg va) := by
+    vmUn prim .OP_INT_MINUS (toVm va) = toVm (vNeg fo va) := by
   rcases ha with rfl | ⟨a, rfl, ha⟩ <;> simp [vmUn, toVm, vNeg, isUndef_UNDEF, isUndef_of_ne, *]
 
 theorem vm_bnot (prim : String → List Int → Int) (va : Val) (ha : ValOk .int va) :
@@ -140,12 +145,12 @@ theorem wf_typed (env : Env) (c : Ctx) (l : LEnv) (e : Expr) (h : WF env c l e) 
     ValOk (tyOf c e) (eval env l e) := by
   cases e with
   | int v => exact Or.inr ⟨v, by simp [eval], by simpa [WF] using h⟩
-  | flt f => simp [WF] at h
+  | flt f => exact Or.inr ⟨f, by simp [eval], by simpa [WF] using h⟩
   | str s => exact Or.inr ⟨s, by simp [eval]⟩
   | filesize => exact Or.inr ⟨env.filesize, by simp [eval], by simpa [WF] using h⟩
   | ext n => simpa [WF, tyOf, eval] using h
   | var k => simp only [WF] at h; simpa [tyOf, eval] using h.2
-  | undefOf t => cases t <;> simp [WF] at h <;> simp [tyOf, eval, ValOk]
+  | undefOf t => cases t <;> simp [tyOf, eval, ValOk]
   | count s => simp only [tyOf, eval]; exact Or.inr ⟨_, rfl, by simp [UNDEF] <;> omega⟩
   | countIn s lo hi =>
     simp only [tyOf, eval, vCountIn]
@@ -155,12 +160,11 @@ theorem wf_typed (env : Env) (c : Ctx) (l : LEnv) (e : Expr) (h : WF env c l e) 
   | offset s i => simp only [WF] at h; simpa [tyOf] using h.2.2.2
   | length s i => simp only [WF] at h; simpa [tyOf] using h.2.2.2
   | read k off => simp only [WF] at h; simpa [tyOf] using h.2.2.1
-  | neg e => simp only [WF] at h; simpa [tyOf, h.2.1] using h.2.2
+  | neg e => simp only [WF] at h; simpa [tyOf] using h.2.2
   | bnot e => simp only [WF] at h; simpa [tyOf] using h.2.2
   | arith op a b =>
     simp only [WF] at h
-    have : tyOf c (.arith op a b) = .int := by cases op <;> simp [tyOf, h.2.2.1, h.2.2.2.1]
-    rw [this]; exact h.2.2.2.2
+    exact h.2.2.2.2.1
   | tt => simp only [tyOf, eval]; exact Or.inr ⟨_, rfl⟩
   | ff => simp only [tyOf, eval]; exact Or.inr ⟨_, rfl⟩
   | found s => simp only [tyOf, eval]; exact Or.inr ⟨_, rfl⟩
@@ -215,27 +219,28 @@ def vmTruth (w : Int) : Bool := !isU w && w != 0
 theorem int_beq (a b : Int) : (a == b) = decide (a = b) := by
   by_cases h : a = b <;> simp [h]
 
-theorem prim_pure (blocks : List (Nat × Bytes)) (name : String) (args : List Int) (h : readerOf name = none) :
-    prim blocks name args = primPure name args := by
-  simp only [prim, h]
+theorem prim_pure (blocks : List (Nat × Bytes)) (name : String) (args : List Int) (h : readerOf name = none)
+    (hd : primDbl fo name args = none) :
+    prim fo blocks name args = primPure name args := by
+  simp only [prim, h, hd]
 
 /-- STR_TO_BOOL when the static type is string, nothing otherwise -/
-def boolWord (blocks : List (Nat × Bytes)) (t : Ty) (w : Int) : Int :=
-  if t == .str then vmUn (prim blocks) .OP_STR_TO_BOOL w else w
+def boolWord (fo : FloatOps) (blocks : List (Nat × Bytes)) (t : Ty) (w : Int) : Int :=
+  if t == .str then vmUn (prim fo blocks) .OP_STR_TO_BOOL w else w
 
 theorem primPure_strlen (a : Int) : primPure "(r1.ss->length>0)" [a] = C.b2i (!(decSS a).isEmpty) := by rfl
 
 theorem strToBool_word (blocks : List (Nat × Bytes)) (s : Bytes) :
-    vmUn (prim blocks) .OP_STR_TO_BOOL (encSS s) = b2i (!s.isEmpty) := by
+    vmUn (prim fo blocks) .OP_STR_TO_BOOL (encSS s) = b2i (!s.isEmpty) := by
   have h : isUndef (encSS s) = false := isUndef_encPtr _ _
   simp only [vmUn, h]
-  rw [prim_pure _ _ _ (by decide), primPure_strlen, decSS_encSS]
+  rw [prim_pure _ _ _ (by decide) rfl, primPure_strlen, decSS_encSS]
   simp
 
 /-- the word in boolean position is UNDEF / 0 / non-zero exactly as the value is undefined / false / true -/
 theorem boolWord_spec (blocks : List (Nat × Bytes)) (t : Ty) (v : Val) (h : ValOk t v) :
-    (v = .undef → boolWord blocks t (toVm v) = UNDEF) ∧
-    (v ≠ .undef → isU (boolWord blocks t (toVm v)) = false ∧ (boolWord blocks t (toVm v) != 0) = asBool v) := by
+    (v = .undef → boolWord fo blocks t (toVm v) = UNDEF) ∧
+    (v ≠ .undef → isU (boolWord fo blocks t (toVm v)) = false ∧ (boolWord fo blocks t (toVm v) != 0) = asBool v) := by
   cases t with
   | int =>
     rcases h with rfl | ⟨i, rfl, hi⟩
@@ -250,45 +255,48 @@ theorem boolWord_spec (blocks : List (Nat × Bytes)) (t : Ty) (v : Val) (h : Val
     rcases h with rfl | ⟨b, rfl⟩
     · simp [boolWord, toVm]
     · cases b <;> simp [boolWord, toVm, isU, asBool, truthy, b2i] <;> decide
-  | flt => exact absurd h (by simp [ValOk])
+  | flt =>
+    rcases h with rfl | ⟨w, rfl, hw⟩
+    · simp [boolWord, toVm]
+    · simp [boolWord, toVm, isU, isUndef_of_ne hw, asBool, truthy]
 
 
 theorem vm_not (blocks : List (Nat × Bytes)) (t : Ty) (v : Val) (h : ValOk t v) :
-    vmUn (prim blocks) .OP_NOT (boolWord blocks t (toVm v)) = toVm (vNot v) := by
+    vmUn (prim fo blocks) .OP_NOT (boolWord fo blocks t (toVm v)) = toVm (vNot v) := by
   by_cases hv : v = .undef
   · subst hv
-    rw [(boolWord_spec blocks t .undef h).1 rfl]
+    rw [(boolWord_spec (fo := fo) blocks t .undef h).1 rfl]
     simp [vmUn, isUndef_UNDEF, vNot, truthy, toVm]
-  · obtain ⟨h1, h2⟩ := (boolWord_spec blocks t v h).2 hv
+  · obtain ⟨h1, h2⟩ := (boolWord_spec (fo := fo) blocks t v h).2 hv
     have ht : truthy v = some (asBool v) := by
       cases v <;> simp_all [truthy, asBool]
     rw [show toVm (vNot v) = b2i (!asBool v) from by simp [vNot, ht, toVm]]
-    generalize boolWord blocks t (toVm v) = w at h1 h2
+    generalize boolWord fo blocks t (toVm v) = w at h1 h2
     simp only [isU] at h1
     simp only [vmUn, h1]
     rw [← h2]
     by_cases hw : w = 0 <;> simp [hw, bne, int_beq]
 
 theorem vm_defined (blocks : List (Nat × Bytes)) (t : Ty) (v : Val) (h : ValOk t v) :
-    vmUn (prim blocks) .OP_DEFINED (boolWord blocks t (toVm v)) = toVm (vDefined v) := by
+    vmUn (prim fo blocks) .OP_DEFINED (boolWord fo blocks t (toVm v)) = toVm (vDefined v) := by
   by_cases hv : v = .undef
   · subst hv
-    rw [(boolWord_spec blocks t .undef h).1 rfl]
+    rw [(boolWord_spec (fo := fo) blocks t .undef h).1 rfl]
     simp [vmUn, isUndef_UNDEF, vDefined, Val.isUndef, toVm, b2i]
-  · obtain ⟨h1, _⟩ := (boolWord_spec blocks t v h).2 hv
+  · obtain ⟨h1, _⟩ := (boolWord_spec (fo := fo) blocks t v h).2 hv
     have : v.isUndef = false := by cases v <;> simp_all [Val.isUndef]
     rw [show toVm (vDefined v) = 1 from by simp [vDefined, this, toVm, b2i]]
-    generalize boolWord blocks t (toVm v) = w at h1
+    generalize boolWord fo blocks t (toVm v) = w at h1
     simp only [isU] at h1
     simp [vmUn, h1, b2i]
 
 /-- truth value of a word in boolean position -/
 theorem word_truth (blocks : List (Nat × Bytes)) (t : Ty) (v : Val) (h : ValOk t v) :
-    (!isU (boolWord blocks t (toVm v)) && boolWord blocks t (toVm v) != 0) = asBool v := by
+    (!isU (boolWord fo blocks t (toVm v)) && boolWord fo blocks t (toVm v) != 0) = asBool v := by
   by_cases hv : v = .undef
   · subst hv
-    simp [(boolWord_spec blocks t .undef h).1 rfl, isU, isUndef_UNDEF, asBool, truthy]
-  · obtain ⟨h1, h2⟩ := (boolWord_spec blocks t v h).2 hv
+    simp [(boolWord_spec (fo := fo) blocks t .undef h).1 rfl, isU, isUndef_UNDEF, asBool, truthy]
+  · obtain ⟨h1, h2⟩ := (boolWord_spec (fo := fo) blocks t v h).2 hv
     simp [h1, h2]
 
 theorem vm_and (prim : String → List Int → Int) (a b : Int) :
@@ -320,18 +328,18 @@ theorem isUndef_encSS (s : Bytes) : isUndef (encSS s) = false := isUndef_encPtr 
 
 theorem vm_cmp_str (blocks : List (Nat × Bytes)) (op : CmpOp) (va vb : Val)
     (ha : ValOk .str va) (hb : ValOk .str vb) :
-    vmBin (prim blocks) (cmpOp .str op) (toVm va) (toVm vb) = toVm (vCmp op va vb) := by
+    vmBin (prim fo blocks) (cmpOp .str op) (toVm va) (toVm vb) = toVm (vCmp fo op va vb) := by
   rcases ha with rfl | ⟨a, rfl⟩ <;> rcases hb with rfl | ⟨b, rfl⟩ <;> cases op <;>
     simp only [cmpOp, vmBin, toVm, vCmp, isUndef_UNDEF, isUndef_encSS, if_true, if_false, Bool.false_eq_true] <;>
-    rw [prim_pure _ _ _ (by decide)] <;>
+    rw [prim_pure _ _ _ (by decide) rfl] <;>
     simp only [pp_eq, pp_neq, pp_lt, pp_le, pp_gt, pp_ge, decSS_encSS]
 
 theorem vm_strop (blocks : List (Nat × Bytes)) (op : StrOp) (va vb : Val)
     (ha : ValOk .str va) (hb : ValOk .str vb) :
-    vmBin (prim blocks) (strOpc op) (toVm va) (toVm vb) = toVm (vStrOp op va vb) := by
+    vmBin (prim fo blocks) (strOpc op) (toVm va) (toVm vb) = toVm (vStrOp op va vb) := by
   rcases ha with rfl | ⟨a, rfl⟩ <;> rcases hb with rfl | ⟨b, rfl⟩ <;> cases op <;>
     simp only [strOpc, vmBin, toVm, vStrOp, isUndef_UNDEF, isUndef_encSS, if_true, if_false, Bool.false_eq_true] <;>
-    rw [prim_pure _ _ _ (by decide)] <;>
+    rw [prim_pure _ _ _ (by decide) rfl] <;>
     simp only [pp_contains, pp_icontains, pp_startswith, pp_istartswith, pp_endswith, pp_iendswith, pp_iequals, decSS_encSS]
 
 
@@ -362,7 +370,7 @@ theorem readBlocks_high (blocks : List (Nat × Bytes)) (n off : Nat) (hn0 : 0 < 
     exact ih (fun b hb' => h b (by simp [hb']))
 
 theorem vmUn_read (blocks : List (Nat × Bytes)) (k : RdKind) (w : Int) :
-    vmUn (prim blocks) (readOp k) w = readPrim blocks (rdSize k) (rdSigned k) (rdBigEndian k) w := by
+    vmUn (prim fo blocks) (readOp k) w = readPrim blocks (rdSize k) (rdSigned k) (rdBigEndian k) w := by
   cases k <;> simp only [readOp, vmUn, rdSize, rdSigned, rdBigEndian] <;>
     exact prim_reader blocks _ _ _ _ _ (by decide)
 
@@ -372,7 +380,7 @@ theorem decodeRd_eq (k : RdKind) (bs : Bytes) :
 
 theorem vm_read (blocks : List (Nat × Bytes)) (hb : ∀ b ∈ blocks, b.1 + b.2.length ≤ 9223372036854775808)
     (k : RdKind) (v : Val) (h : ValOk .int v) (hr : ∀ a, v = .int a → C.inRange a) :
-    vmUn (prim blocks) (readOp k) (toVm v) = toVm (vRead blocks k v) := by
+    vmUn (prim fo blocks) (readOp k) (toVm v) = toVm (vRead blocks k v) := by
   rw [vmUn_read]
   rcases h with rfl | ⟨a, rfl, ha⟩
   · simp only [toVm, readPrim, undef_offset, readBlocks_sentinel blocks _ hb, vRead]
@@ -453,11 +461,11 @@ theorem WordOK.exact {t : Ty} {v : Val} {w : Int} (h : WordOK t v w) (ht : t ≠
   · exact absurd h ht
 
 theorem truthWord_boolpos (blocks : List (Nat × Bytes)) (t : Ty) (v : Val) (w : Int) (hv : ValOk t v)
-    (h : WordOK t v w) : TruthWord v (boolWord blocks t w) := by
+    (h : WordOK t v w) : TruthWord v (boolWord fo blocks t w) := by
   rcases h with rfl | ⟨rfl, rfl, hu, hz⟩
   · exact boolWord_spec blocks t v hv
   · refine ⟨fun h => (by cases h), fun _ => ?_⟩
-    have hb : boolWord blocks .bool w = w := by simp [boolWord]
+    have hb : boolWord fo blocks .bool w = w := by simp [boolWord]
     rw [hb]
     exact ⟨hu, by simp [asBool, truthy, hz]⟩
 
@@ -513,5 +521,127 @@ theorem nbWord_cases (v : Val) : (nbWord v = 0 ∨ nbWord v = 1 ∨ nbWord v = U
   · have : v = .undef := by cases v <;> simp_all [Val.isUndef]
     subst this
     simp; decide
+
+/-! ### doubles: OP_INT_TO_DBL promotion and the OP_DBL_* opcodes — for every `FloatOps` -/
+
+/-- the word OP_INT_TO_DBL leaves in a slot -/
+def promoteW (fo : FloatOps) (w : Int) : Int := if isU w then UNDEF else fo.ofInt w
+
+/-- the operand words after the conversions `conv ta tb` inserts (INT_TO_DBL 2 = the left operand, 1 = the right one) -/
+def convA (fo : FloatOps) (ta tb : Ty) (wa : Int) : Int := if ta == .int && tb == .flt then promoteW fo wa else wa
+def convB (fo : FloatOps) (ta tb : Ty) (wb : Int) : Int := if ta == .flt && tb == .int then promoteW fo wb else wb
+
+theorem prim_dbl (blocks : List (Nat × Bytes)) (name : String) (args : List Int) (v : Int) (h : readerOf name = none)
+    (hd : primDbl fo name args = some v) : prim fo blocks name args = v := by
+  simp only [prim, h, hd]
+
+theorem pd_add (a b : Int) : prim fo blocks "(r1.d+r2.d)" [a, b] = fo.add a b := prim_dbl _ _ _ _ (by decide) rfl
+theorem pd_sub (a b : Int) : prim fo blocks "(r1.d-r2.d)" [a, b] = fo.sub a b := prim_dbl _ _ _ _ (by decide) rfl
+theorem pd_mul (a b : Int) : prim fo blocks "(r1.d*r2.d)" [a, b] = fo.mul a b := prim_dbl _ _ _ _ (by decide) rfl
+theorem pd_div (a b : Int) : prim fo blocks "(r1.d/r2.d)" [a, b] = fo.div a b := prim_dbl _ _ _ _ (by decide) rfl
+theorem pd_neg (a : Int) : prim fo blocks "-r1.d" [a] = fo.neg a := prim_dbl _ _ _ _ (by decide) rfl
+theorem pd_lt (a b : Int) : prim fo blocks "(r1.d<r2.d)" [a, b] = b2i (cmpFlt fo .lt a b) := prim_dbl _ _ _ _ (by decide) rfl
+theorem pd_gt (a b : Int) : prim fo blocks "(r1.d>r2.d)" [a, b] = b2i (cmpFlt fo .gt a b) := prim_dbl _ _ _ _ (by decide) rfl
+theorem pd_le (a b : Int) : prim fo blocks "(r1.d<=r2.d)" [a, b] = b2i (cmpFlt fo .le a b) := prim_dbl _ _ _ _ (by decide) rfl
+theorem pd_ge (a b : Int) : prim fo blocks "(r1.d>=r2.d)" [a, b] = b2i (cmpFlt fo .ge a b) := prim_dbl _ _ _ _ (by decide) rfl
+theorem pd_eq (a b : Int) : prim fo blocks "(fabs((r1.d-r2.d))<DBL_EPSILON)" [a, b] = b2i (cmpFlt fo .eq a b) :=
+  prim_dbl _ _ _ _ (by decide) rfl
+theorem pd_neq (a b : Int) : prim fo blocks "(fabs((r1.d-r2.d))>=DBL_EPSILON)" [a, b] = b2i (cmpFlt fo .neq a b) :=
+  prim_dbl _ _ _ _ (by decide) rfl
+
+/-- a numeric operand as the double operation sees it: a double as it is, an integer promoted -/
+def asDbl (fo : FloatOps) : Val → Option Int
+  | .flt w => some w
+  | .int i => some (fo.ofInt i)
+  | _ => none
+
+/-- operand words of a mixed / double operation, after the promotion: UNDEF for an undefined operand, else the double -/
+theorem conv_words (ta tb : Ty) (va vb : Val) (hta : ta = .int ∨ ta = .flt) (htb : tb = .int ∨ tb = .flt)
+    (hne : ¬ (ta = .int ∧ tb = .int)) (ha : ValOk ta va) (hb : ValOk tb vb) (hp : promoOk fo ta tb va vb) :
+    (va = .undef ∧ convA fo ta tb (toVm va) = UNDEF ∨ ∃ x, asDbl fo va = some x ∧ convA fo ta tb (toVm va) = x ∧ x ≠ UNDEF) ∧
+    (vb = .undef ∧ convB fo ta tb (toVm vb) = UNDEF ∨ ∃ y, asDbl fo vb = some y ∧ convB fo ta tb (toVm vb) = y ∧ y ≠ UNDEF) ∧
+    (∀ x y, asDbl fo va = some x → asDbl fo vb = some y →
+      (∀ op, isFltOp op = true → vArith fo op va vb = arithFlt fo op x y) ∧ ∀ op, vCmp fo op va vb = .bool (cmpFlt fo op x y)) := by
+  rcases hta with rfl | rfl <;> rcases htb with rfl | rfl
+  · exact absurd ⟨rfl, rfl⟩ hne
+  · -- int, flt
+    refine ⟨?_, ?_, ?_⟩
+    · rcases ha with rfl | ⟨i, rfl, hi⟩
+      · left; simp [convA, promoteW, toVm, isU, isUndef_UNDEF]
+      · right; exact ⟨fo.ofInt i, rfl, by simp [convA, promoteW, toVm, isU, isUndef_of_ne hi], hp.1 rfl rfl i rfl⟩
+    · rcases hb with rfl | ⟨w, rfl, hw⟩
+      · left; simp [convB, toVm]
+      · right; exact ⟨w, rfl, by simp [convB, toVm], hw⟩
+    · intro x y hx hy
+      rcases ha with rfl | ⟨i, rfl, hi⟩ <;> rcases hb with rfl | ⟨w, rfl, hw⟩ <;> simp [asDbl] at hx hy
+      subst hx; subst hy
+      exact ⟨fun op hop => by cases op <;> simp [isFltOp] at hop <;> rfl, fun op => rfl⟩
+  · -- flt, int
+    refine ⟨?_, ?_, ?_⟩
+    · rcases ha with rfl | ⟨w, rfl, hw⟩
+      · left; simp [convA, toVm]
+      · right; exact ⟨w, rfl, by simp [convA, toVm], hw⟩
+    · rcases hb with rfl | ⟨i, rfl, hi⟩
+      · left; simp [convB, promoteW, toVm, isU, isUndef_UNDEF]
+      · right; exact ⟨fo.ofInt i, rfl, by simp [convB, promoteW, toVm, isU, isUndef_of_ne hi], hp.2 rfl rfl i rfl⟩
+    · intro x y hx hy
+      rcases ha with rfl | ⟨w, rfl, hw⟩ <;> rcases hb with rfl | ⟨i, rfl, hi⟩ <;> simp [asDbl] at hx hy
+      subst hx; subst hy
+      exact ⟨fun op hop => by cases op <;> simp [isFltOp] at hop <;> rfl, fun op => rfl⟩
+  · -- flt, flt
+    refine ⟨?_, ?_, ?_⟩
+    · rcases ha with rfl | ⟨w, rfl, hw⟩
+      · left; simp [convA, toVm]
+      · right; exact ⟨w, rfl, by simp [convA, toVm], hw⟩
+    · rcases hb with rfl | ⟨w, rfl, hw⟩
+      · left; simp [convB, toVm]
+      · right; exact ⟨w, rfl, by simp [convB, toVm], hw⟩
+    · intro x y hx hy
+      rcases ha with rfl | ⟨w, rfl, hw⟩ <;> rcases hb with rfl | ⟨w', rfl, hw'⟩ <;> simp [asDbl] at hx hy
+      subst hx; subst hy
+      exact ⟨fun op hop => by cases op <;> simp [isFltOp] at hop <;> rfl, fun op => rfl⟩
+
+theorem vArith_undef_left (op : ArOp) (v : Val) : vArith fo op .undef v = .undef := by cases v <;> rfl
+theorem vArith_undef_right (op : ArOp) (v : Val) : vArith fo op v .undef = .undef := by cases v <;> rfl
+theorem vCmp_undef_left (op : CmpOp) (v : Val) : vCmp fo op .undef v = .undef := by cases v <;> rfl
+theorem vCmp_undef_right (op : CmpOp) (v : Val) : vCmp fo op v .undef = .undef := by cases v <;> rfl
+
+/-- OP_DBL_ADD/SUB/MUL/DIV on the promoted operand words = the specification's mixed arithmetic -/
+theorem vm_arith_flt (blocks : List (Nat × Bytes)) (op : ArOp) (hop : isFltOp op = true) (ta tb : Ty) (va vb : Val)
+    (hta : ta = .int ∨ ta = .flt) (htb : tb = .int ∨ tb = .flt) (hne : ¬ (ta = .int ∧ tb = .int))
+    (ha : ValOk ta va) (hb : ValOk tb vb) (hp : promoOk fo ta tb va vb) :
+    vmBin (prim fo blocks) (arithOp .flt op) (convA fo ta tb (toVm va)) (convB fo ta tb (toVm vb)) = toVm (vArith fo op va vb) := by
+  obtain ⟨h1, h2, h3⟩ := conv_words (fo := fo) ta tb va vb hta htb hne ha hb hp
+  rcases h1 with ⟨rfl, e1⟩ | ⟨x, hx, e1, nx⟩
+  · rw [e1, vArith_undef_left]
+    cases op <;> simp [isFltOp] at hop <;> simp [arithOp, vmBin, isUndef_UNDEF, toVm]
+  · rcases h2 with ⟨rfl, e2⟩ | ⟨y, hy, e2, ny⟩
+    · rw [e2, vArith_undef_right]
+      cases op <;> simp [isFltOp] at hop <;> simp [arithOp, vmBin, isUndef_UNDEF, toVm]
+    · rw [e1, e2, (h3 x y hx hy).1 op hop]
+      cases op <;> simp [isFltOp] at hop <;>
+        simp [arithOp, vmBin, isUndef_of_ne nx, isUndef_of_ne ny, arithFlt, toVm, pd_add, pd_sub, pd_mul, pd_div]
+
+/-- OP_DBL_EQ .. OP_DBL_GE on the promoted operand words = the specification's mixed comparison -/
+theorem vm_cmp_flt (blocks : List (Nat × Bytes)) (op : CmpOp) (ta tb : Ty) (va vb : Val)
+    (hta : ta = .int ∨ ta = .flt) (htb : tb = .int ∨ tb = .flt) (hne : ¬ (ta = .int ∧ tb = .int))
+    (ha : ValOk ta va) (hb : ValOk tb vb) (hp : promoOk fo ta tb va vb) :
+    vmBin (prim fo blocks) (cmpOp .flt op) (convA fo ta tb (toVm va)) (convB fo ta tb (toVm vb)) = toVm (vCmp fo op va vb) := by
+  obtain ⟨h1, h2, h3⟩ := conv_words (fo := fo) ta tb va vb hta htb hne ha hb hp
+  rcases h1 with ⟨rfl, e1⟩ | ⟨x, hx, e1, nx⟩
+  · rw [e1, vCmp_undef_left]
+    cases op <;> simp [cmpOp, vmBin, isUndef_UNDEF, toVm]
+  · rcases h2 with ⟨rfl, e2⟩ | ⟨y, hy, e2, ny⟩
+    · rw [e2, vCmp_undef_right]
+      cases op <;> simp [cmpOp, vmBin, isUndef_UNDEF, toVm]
+    · rw [e1, e2, (h3 x y hx hy).2 op]
+      cases op <;>
+        simp [cmpOp, vmBin, isUndef_of_ne nx, isUndef_of_ne ny, toVm, pd_lt, pd_gt, pd_le, pd_ge, pd_eq, pd_neq]
+
+theorem vm_neg_flt (blocks : List (Nat × Bytes)) (va : Val) (ha : ValOk .flt va) :
+    vmUn (prim fo blocks) .OP_DBL_MINUS (toVm va) = toVm (vNeg fo va) := by
+  rcases ha with rfl | ⟨w, rfl, hw⟩
+  · simp [vmUn, toVm, vNeg, isUndef_UNDEF]
+  · simp [vmUn, toVm, vNeg, isUndef_of_ne hw, pd_neg]
 
 end YaraModel.CondCompile
